@@ -58,6 +58,10 @@ def _inject(w: World, inj: dict, rng: random.Random, run: Run) -> None:
         wf = w.store.retrieve(w.wf_id)
         st = wf.stage_by_ref_id(inj["ref"])
         w.orch.restart(wf, st.id)
+    elif do == "pause":
+        w.store.pause(w.wf_id, "verif")
+    elif do == "unpause":
+        w.orch.unpause(w.store.retrieve(w.wf_id))
     elif do == "retention":
         w.store.cleanup_old_processed_messages(max_age_hours=float(inj.get("hours", 24.0)))
         w.store.cleanup_completed_stage_claims()
